@@ -142,16 +142,20 @@ def call_skeleton(i, method, fill=False):
     return b'{"jsonrpc":"2.0","id":' + ser_id(i) + b',"method":"' + method.encode() + b'","params":["'
 
 
-def sized_message(i, total):
-    """A request of exactly `total` bytes as segs, and its kind.  echo call padded inside its string parameter when it
-    fits; otherwise a method-less / empty object padded with spaces (parsed, answered -32600 / -32601, no handler)."""
+def sized_message(i, total, lead=0, ws=b" "):
+    """A request of exactly `total` bytes as segs, and its kind; the first `lead` bytes are JSON whitespace `ws`.
+    echo call padded inside its string parameter when it fits; otherwise a method-less / empty object padded with
+    spaces (parsed, answered -32600 / -32601, no handler)."""
+    lead = max(0, min(lead, total - 2))
+    pre = [seg(ws, lead)] if lead else []
+    inner = total - lead
     head = call_skeleton(i, "echo")
     tailb = b'"]}'
-    k = total - len(head) - len(tailb)
+    k = inner - len(head) - len(tailb)
     if k >= 0:
-        return segs_join([seg(head), seg(b"x", k), seg(tailb)]), "echo", k + 4   # params text = ["x..."] -> k + 4 bytes
-    if total >= 2:
-        return segs_join([seg(b"{"), seg(b" ", total - 2), seg(b"}")]), "pad", None
+        return segs_join(pre + [seg(head), seg(b"x", k), seg(tailb)]), "echo", k + 4   # params text = ["x..."] -> k + 4 bytes
+    if inner >= 2:
+        return segs_join(pre + [seg(b"{"), seg(b" ", inner - 2), seg(b"}")]), "pad", None
     return seg(b"{"), "pad", None
 
 
